@@ -115,6 +115,9 @@ def gen_layers(rng: random.Random, n: int) -> list[str]:
         k = rng.randint(1, 3)
         names = rng.sample(["x", "y", "v", "version", "a"], k)
         binds = "\n".join(f"  {nm} = {rng.choice(['1', '2', chr(34) + 's' + chr(34), 'y', 'v'])};" for nm in names)
+        if rng.random() < 0.3:
+            inh = rng.choice(["inherit (pkgs) lib;", "inherit q;", "inherit (p) r s;"])
+            binds = (f"  {inh}\n" + binds) if rng.random() < 0.5 else (binds + f"\n  {inh}")
         out.append(f"let\n{binds}\nin\n")
     return out
 
@@ -197,7 +200,8 @@ def enumerate_single_ops():
         "{\n  a = { p = 1; };\n  x = { };\n}",
         "{\n  b = {\n    a.p = 1;\n    a.q = 2;\n  };\n}",
     ]
-    layers_opts = ["", "let\n  x = 1;\nin\n", "let\n  x = 1;\n  y = x;\nin\nlet\n  x = 2;\n  v = \"0\";\nin\n"]
+    layers_opts = ["", "let\n  x = 1;\nin\n", "let\n  x = 1;\n  y = x;\nin\nlet\n  x = 2;\n  v = \"0\";\nin\n",
+                   "let\n  inherit (pkgs) lib;\n  x = 1;\nin\n"]
     ops = (
         [("set", p, v) for p in ["a", "b", "c", "zz", "a.p", "a.q", "a.z", "a.q.r", "a.q.z", "b.k", "b.z", "zz.k",
                                  "zz.k.j", "b.a.p", "b.a.z", "b.a.q.z", '"q-r"', '"a.p"', "x", "y", "version", "src", "@x", "@y", "@zz", "@@x",
